@@ -1342,6 +1342,16 @@ def _run(ctx):
             ctx.add_vm('api_c19_discrete_sorted', [xs, ys], orun(ctx, [('api_c19_discrete_sorted', [xs, ys])])[0])
         if len(ctx.violations) > 6:
             return
+    # ---- (e9) chains long enough for summed distances beyond 255: the clustering is still that of the summed distances (seeded change
+    # C19-r9m1: per-chain distances held in one byte)
+    for rep_ in range(1 if q else 4):
+        L = 150 + 10 * rep_
+        al_ = [''.join(rng.choice(AA20) for _ in range(L)) for _ in range(3)]
+        be_ = [''.join(rng.choice(AA20) for _ in range(L)) for _ in range(3)]
+        al_.append(al_[0][:-1] + 'W')
+        be_.append(be_[0])
+        ctx.count('clustermap_chains_longer_than_140')
+        _report(ctx, chk_clustermap(ctx, al_, be_, 'paired', list(range(4)), {}, ('cdr3a', 'cdr3b'), dict(method='average'), dict(t=300, criterion='distance')))
     # ---- (d0) zeros of both signs are one location (seeded change C19-r8m2: rows compared bit by bit)
     for sort_ in (True, False, None):
         for kind_ in ('list', 'ndarray'):
